@@ -700,6 +700,25 @@ pub fn run_c15(a: &Args, rep: &mut Report) {
             }
         }
     }
+    // "programs of any length": a few very long ones (up to the 1,000,000-instruction limit)
+    if !cfg!(miri) {
+        let lens: &[usize] = if a.tier == "quick" { &[70_000, 130_000, 1_000_000] } else { &[70_000, 125_001, 130_000, 300_000, 600_000, 1_000_000] };
+        for (i, l) in lens.iter().enumerate() {
+            if i as u64 % a.nshards == a.shard % a.nshards {
+                let mut v = Vec::with_capacity(*l + 2);
+                while v.len() < *l {
+                    let opc = *rng.pick(&ops);
+                    v.extend(rand_fields(&mut rng, opc, false, false));
+                }
+                v.truncate(*l);
+                if v.last().map(|i| i.opc) == Some(LDDW) {
+                    v.pop();
+                }
+                rep.set("long_programs", format!("{l}"));
+                progs.push(v);
+            }
+        }
+    }
     let total = progs.len() as u64 + n;
     for k in 0..total {
         let p = if (k as usize) < progs.len() { progs[k as usize].clone() } else { gen_prog(&mut rng, &ops, false, false, 2000) };
@@ -752,9 +771,28 @@ pub fn run_c16(a: &Args, rep: &mut Report) {
     // assembler-expressible opcodes
     let ops: Vec<u8> = all_supported_opcodes().into_iter().filter(|o| !matches!(op_info(*o).unwrap().shape, Shape::Xadd | Shape::TailCall)).collect();
     let n = ((if a.tier == "quick" { 400_000.0 } else { 30_000_000.0 }) * a.scale) as u64 / a.nshards;
-    for k in 0..n {
-        let canonical = k % 2 == 0;
-        let p = gen_prog(&mut rng, &ops, canonical, canonical, 600);
+    let long_lens: Vec<usize> = if cfg!(miri) {
+        vec![]
+    } else if a.tier == "quick" {
+        vec![100_000, 450_000]
+    } else {
+        vec![100_000, 250_000, 450_000, 700_000, 1_000_000]
+    };
+    let my_long: Vec<usize> = long_lens.iter().enumerate().filter(|(i, _)| *i as u64 % a.nshards == a.shard % a.nshards).map(|(_, l)| *l).collect();
+    for k in 0..n + my_long.len() as u64 {
+        let canonical = k % 2 == 0 || k >= n;
+        let p = if k >= n {
+            let l = my_long[(k - n) as usize];
+            rep.set("long_programs", format!("{l}"));
+            let mut v = Vec::with_capacity(l + 2);
+            while v.len() < l {
+                let opc = *rng.pick(&ops);
+                v.extend(rand_fields(&mut rng, opc, true, true));
+            }
+            v
+        } else {
+            gen_prog(&mut rng, &ops, canonical, canonical, 600)
+        };
         let bytes = encode_prog(&p);
         rep.case(Some(fnv(&bytes)));
         let r = sys::catch(|| {
